@@ -109,13 +109,27 @@ Definition c07_prop (k : c07_case) : bool :=
             match cons_fold_aside c0 evs with
             | None => false
             | Some c' =>
-                (* in number / target mode the first delivered block is the first block at or after the start *)
-                ((mode =? 1) ||
-                 match events with
-                 | e0 :: _ => match lookup (bparent (eblk e0)) (root :: arrival) with
-                              | Some p => true
-                              | None => true end
-                 | [] => true end)
+                (* completeness ("every canonical block from the start point on is delivered", provided files and hub
+                   together cover the chain): when the MODEL's run on this very input delivers up to a block T and ends
+                   normally (waiting at the head, or stop block reached) — so files and hub did cover the chain up to T —
+                   a run of the implementation that ends WAITING (err 0) must have delivered T too *)
+                let model_tip :=
+                  match c07_model k with
+                  | Some (mevs, me) =>
+                      if (me =? 0) || (me =? 1) then
+                        match cons_fold_aside c0 (map (fun e => match estep e with
+                                                                | SNewIrr => mkEv SNew (eblk e) (ecblk e) (ehead e) (elib e) None 0 0
+                                                                | _ => e end) mevs) with
+                        | Some cm => match cs_stack cm with top :: _ => Some (bid top) | [] => None end
+                        | None => None
+                        end
+                      else None
+                  | None => None
+                  end in
+                match model_tip with
+                | Some t => negb (err =? 0) || existsb (fun x => bid x =? t) (cs_stack c')
+                | None => true
+                end
             end
         end
       else if filt =? 1 then
